@@ -24,7 +24,9 @@
    one of from_tree (log level `warn`), not Config::default(); only class (accepted / syntax error / validation
    error), file and line of an error are compared, never the message text.
    Lexical choices of every generator (TLC families here, the harness' random generator): `server {` is written
-   exactly so; one or more spaces separate key and value; a string contains no `"` and no `#`; units are upper
+   exactly so; one or more blanks (never a tab) separate key and value, so values may be aligned in a column; a
+   string contains no `"` and no `#` but may contain anything else between its quotation marks - runs of blanks,
+   a blank right after the opening or before the closing quote, a tab - and means exactly that text; units are upper
    case; integers are canonical (no `+`, no leading zeros, no `-0`); host patterns are quoted; proxy targets are
    separated by `,` without blanks; no key occurs twice in a section; a route has at most one of
    file|directory|proxy|redirect; known keys carry a token of their documented type unless a fault says otherwise.
@@ -42,7 +44,9 @@ DevNames == {"ParseSizePanic",    \* parse_size slices the last *byte* off an un
                                   \* rest of the file is lost
              "HostQuoteLax"}      \* `host "x {` keeps the stray quote in the pattern; `host " {` panics
 BugNames == {"ReverseRoutes", "FirstPatternOnly", "Threads0Accepted", "LineMinus1", "DefaultLogInfo",
-             "ErrFileMain", "LastTargetOnly"}   \* plausible bugs, only used by sensitivity configs
+             "ErrFileMain", "LastTargetOnly",
+             "CollapseWhitespace"}   \* key/value split with split_whitespace() and re-joined by single blanks:
+                                     \* white space inside a quoted string is collapsed   \* plausible bugs, only used by sensitivity configs
 
 (***************************************************************************)
 (* Part 1: strings and numbers                                             *)
@@ -406,7 +410,8 @@ Rep(s, n) == IF n = 0 THEN "" ELSE s \o Rep(s, n - 1)
 CleanUp(raw) == LET i == IndexOf(raw, "#") IN Trim(IF i = 0 THEN raw ELSE SubSeq(raw, 1, i - 1))    \* tree.rs clean_up
 \* an annotated line; .cl memoises clean_up(.txt) (TLC would otherwise recompute it in every guard)
 AL(txt, p, part) == [txt |-> txt, cl |-> CleanUp(txt), p |-> p, part |-> part]
-FileName(f) == "F" \o ToString(f)
+FileName(f) == "F  " \o ToString(f)      \* (paths are strings too: two blanks inside)
+BlName      == "B \t L"
 Header(e, L) == IF e.t = "sec" THEN e.k
                 ELSE IF e.t = "route" THEN "route " \o Join(e.ps, L.psep) ELSE "host " \o e.ps[1]
 \* L = [ind, sep, cmt, psep: strings; blank, pre: BOOLEAN]
@@ -415,7 +420,7 @@ RenderEs(es, i, pre, d, L) ==
   IF i > Len(es) THEN <<>>
   ELSE LET e == es[i]  p == Append(pre, i)  ind == Rep(L.ind, d) IN
    (IF e.t = "key" THEN
-      <<AL(ind \o e.k \o (IF e.v = "" THEN "" ELSE L.sep \o Subst(e.v, "BL")) \o L.cmt, p, "line")>>
+      <<AL(ind \o e.k \o (IF e.v = "" THEN "" ELSE L.sep \o Subst(e.v, BlName)) \o L.cmt, p, "line")>>
     ELSE IF e.t = "inc" THEN
       <<AL(ind \o "include" \o (IF e.v = "" THEN "" ELSE L.sep \o Subst(e.v, FileName(e.f))) \o L.cmt, p, "line")>>
     ELSE
@@ -546,8 +551,16 @@ P_Close ==
      ELSE /\ sstk' = PushVal(Pop(sstk), N(Top.kind, Top.name, "", Top.vals)) /\ pstk' = Advance(pstk)
           /\ UNCHANGED <<cid, phase, tree, acc, res>>
 IsKV == phase = "sect" /\ HasLine /\ Line # "" /\ Line # "}" /\ ~EndsWith(Line, "{")
+RECURSIVE Words(_)          \* str::split_whitespace
+Words(l) == LET t == Trim(l)
+                J == {i \in 1..Len(t) : Ch(t, i) \in WS} IN
+            IF t = "" THEN <<>> ELSE IF J = {} THEN <<t>>
+            ELSE <<SubSeq(t, 1, MinOf(J) - 1)>> \o Words(From(t, MinOf(J) + 1))
 KeyOf(l)   == IF IndexOf(l, " ") = 0 THEN l ELSE SubSeq(l, 1, IndexOf(l, " ") - 1)
-ValueOf(l) == Trim(From(l, IndexOf(l, " ") + 1))
+\* the value is everything after the first blank, trimmed at both ends and otherwise untouched: what stands between
+\* the quotation marks of a string is taken byte for byte
+ValueOf(l) == IF "CollapseWhitespace" \in Dev THEN Join(Tail(Words(l)), " ")
+              ELSE Trim(From(l, IndexOf(l, " ") + 1))
 P_NoValue == /\ IsKV /\ IndexOf(Line, " ") = 0 /\ Finish(ErrP("syntax", Cur.f, LineNo))
 P_Value ==
   /\ IsKV /\ IndexOf(Line, " ") # 0 /\ KeyOf(Line) # "include"
@@ -614,7 +627,7 @@ T2 ==  \* blacklist: load_list_file, IpAddr::from_str, mode
   /\ LET m == ServerMap
          hasF == MHas(m, "server.blacklist.file")
          mode == GetOptional(m, "server.blacklist.mode", "block") IN
-     IF hasF /\ ~(MStr(m, "server.blacklist.file") = "BL" /\ ast.bl.exists) THEN Finish(ErrT("List file could not be opened"))
+     IF hasF /\ ~(MStr(m, "server.blacklist.file") = BlName /\ ast.bl.exists) THEN Finish(ErrT("List file could not be opened"))
      ELSE IF hasF /\ \E i \in 1..Len(ast.bl.ips) : ast.bl.ips[i] \notin GoodIps THEN Finish(ErrT("Could not parse IP address"))
      ELSE IF mode \notin {"block", "forbidden"} THEN Finish(ErrT("Invalid blacklist mode"))
      ELSE /\ acc' = [acc EXCEPT !.bl_list = IF hasF THEN ast.bl.ips ELSE <<>>, !.bl_mode = mode]
